@@ -139,7 +139,7 @@ def _guard(seconds: int) -> None:
     signal.alarm(seconds)
     try:
         soft, hard = resource.getrlimit(resource.RLIMIT_AS)
-        want = 6 * 1024 ** 3
+        want = 3 * 1024 ** 3
         if soft == resource.RLIM_INFINITY or soft > want:
             resource.setrlimit(resource.RLIMIT_AS, (want, hard))
     except (ValueError, OSError):
